@@ -90,7 +90,8 @@ impl Opts {
         Self { api: Api::Eager, capacity: None, input_len, raw: false, bgzf_read: None, bed_n: 3, debug: true, vpos: true, fresh: false }
     }
     pub fn for_doc(doc: &Doc) -> Self {
-        let mut o = Self::new(doc.bytes.len());
+        // the caps count items, and a compressed document legitimately yields more items than it has bytes
+        let mut o = Self::new(doc.bytes.len().max(doc.inner.as_ref().map(|i| i.bytes.len()).unwrap_or(0)));
         if doc.format == Format::Bed {
             o.bed_n = if doc.name.starts_with("bed3") { 3 } else { 6 };
         }
